@@ -18,6 +18,13 @@ from edgegraph.structure.universe import UniverseLaws
 RULE_ATTRS = ("mixed_links", "cycles", "multipath", "multiverse")
 
 
+def _slot_names(c):
+    s = c.__dict__.get("__slots__", ())
+    if isinstance(s, str):
+        s = (s,)
+    return [n for n in s if n not in ("__dict__", "__weakref__")]
+
+
 def _is_node(o):
     return isinstance(o, BaseObject)
 
@@ -104,6 +111,16 @@ def canonical(root):
         rec = {"cls": type(o).__module__ + "." + type(o).__qualname__, "uid": o.uid}
         pub = {k: v for k, v in vars(o).items() if not k.startswith("_")}
         rec["attrs"] = [[k, val(pub[k])] for k in sorted(pub)]
+        slots = [n for c in type(o).__mro__ for n in _slot_names(c) if hasattr(o, n)]
+        if slots:
+            rec["slots"] = [[n, val(getattr(o, n))] for n in sorted(slots)]
+        probe = getattr(type(o), "egv_probe", None)
+        if probe is not None:
+            # behaviour of a class that was pickled by value (methods using super(), closures, class attributes)
+            try:
+                rec["probe"] = val(o.egv_probe())
+            except Exception as exc:  # noqa: BLE001
+                rec["probe"] = ["exc", type(exc).__name__]
         rec["universes"] = [ref(u) for u in o.universes]
         if isinstance(o, Vertex):
             rec["links"] = [ref(l) for l in o.links]
